@@ -37,6 +37,12 @@ T_UNKNOWN_NONCRIT = 0xF0     # even, > 31, not used by any model here
 
 class Malformed(Exception):
     """the byte string is not a well-formed packet under the strict reading of the NDN packet format"""
+    overrun = False
+
+
+class Overrun(Malformed):
+    """an element's declared length runs past the end of its parent"""
+    overrun = True
 
 
 def enc_var(n: int) -> bytes:
@@ -78,7 +84,7 @@ def rd_var(buf, off: int, end: int):
         return b, 1
     n = {0xFD: 2, 0xFE: 4, 0xFF: 8}[b]
     if off + 1 + n > end:
-        raise Malformed(f'var-number at {off} runs past its parent')
+        raise Overrun(f'var-number at {off} runs past its parent')
     v = int.from_bytes(bytes(buf[off + 1:off + 1 + n]), 'big')
     if var_size(v) != 1 + n:
         raise Malformed(f'var-number {v} at {off} is not in shortest form ({1 + n} bytes)')
@@ -91,7 +97,7 @@ def rd_elem(buf, off: int, end: int):
     ln, ls = rd_var(buf, off + ts, end)
     vo = off + ts + ls
     if vo + ln > end:
-        raise Malformed(f'element type {t} at {off}: declared length {ln} overruns its parent (end {end})')
+        raise Overrun(f'element type {t} at {off}: declared length {ln} overruns its parent (end {end})')
     if t == 0:
         raise Malformed(f'element at {off} has type 0')
     return t, vo, vo + ln
@@ -200,7 +206,7 @@ def walk_data(wire, strict: bool = True, cert: bool = False) -> dict:
     f = _ordered(kids(wire, vo, ve), [T_NAME, T_META, T_CONTENT, T_SIGINFO, T_SIGVAL], strict, 'Data')
     if T_NAME not in f:
         raise Malformed('Data without Name')
-    r = {'kind': 'data', 'wire': wire, 'value': (vo, ve)}
+    r = {'kind': 'data', 'wire': wire, 'value': (vo, ve), 'elems': f}
     comps = walk_name(wire, *f[T_NAME][1:])
     r['name'] = [wire[c[1]:c[3]] for c in comps]
     r['meta'] = None
@@ -228,7 +234,7 @@ def walk_interest(wire, strict: bool = True) -> dict:
                  [T_NAME, T_CBP, T_MBF, T_FH, T_NONCE, T_LIFETIME, T_HOP, T_APP, T_ISIGINFO, T_ISIGVAL], strict, 'Interest')
     if T_NAME not in f:
         raise Malformed('Interest without Name')
-    r = {'kind': 'interest', 'wire': wire, 'value': (vo, ve)}
+    r = {'kind': 'interest', 'wire': wire, 'value': (vo, ve), 'elems': f}
     comps = walk_name(wire, *f[T_NAME][1:])
     r['name'] = [wire[c[1]:c[3]] for c in comps]
     for t, k in ((T_CBP, 'can_be_prefix'), (T_MBF, 'must_be_fresh')):
